@@ -1,0 +1,8 @@
+//go:build verif
+
+package dhcp
+
+import "github.com/insomniacslk/dhcp/dhcpv4"
+
+// ParseOption82ForVerif exposes parseOption82 (C09 of /verif).  Add-only, -tags verif only.
+func ParseOption82ForVerif(req *dhcpv4.DHCPv4) *RelayAgentInfo { return parseOption82(req) }
